@@ -127,7 +127,7 @@ def root_of(f, o, env, depth=0):
         if k == 'call':
             nm = e.get('name')
             ck = e.get('ck')
-            if ck in ('member', 'conv') and (e.get('cls') or '').startswith(ICS) and (nm == 'load' or ck == 'conv'):
+            if ck in ('member', 'conv') and ((e.get('cls') or '').startswith(ICS) or (e.get('cls') or '').startswith('unodb::in_fake_critical_section<')) and (nm == 'load' or ck == 'conv'):
                 return ('loaded', root_of(f, e['obj'], env, depth), slot_index_sig(f, e['obj']))
             if ck == 'op' and e.get('op') in ('[]', '*', '->', '++', '--', '+', '-'):
                 o = e['args'][0]
@@ -229,8 +229,11 @@ def is_ics_store(e):
 class Summaries:
     """writes[sig] / retires[sig] = set of roots in the function's own terms"""
 
-    def __init__(self, cfg, scope):
+    def __init__(self, cfg, scope, store_pred=None, store_target=None):
         self.cfg = cfg
+        if store_pred is None:
+            store_pred = lambda f, e: is_ics_store(e)
+            store_target = lambda f, e: (e['args'][0] if e.get('ck') == 'op' else e['obj'])
         self.writes = {}
         self.retires = {}
         self.calls = {}
@@ -244,8 +247,8 @@ class Summaries:
             for b, i, e in f.elements():
                 if e.get('k') != 'call' or is_assert_elem_macro(e):
                     continue
-                if is_ics_store(e):
-                    tgt = e['args'][0] if e.get('ck') == 'op' else e['obj']
+                if store_pred(f, e):
+                    tgt = store_target(f, e)
                     w.add(norm_local(root_of(f, tgt, env)))
                     continue
                 nm = e.get('name')
